@@ -16,7 +16,8 @@ PROBES = {
                       ("Optional", "X-Optional", "str", {})],
     "probe_lists": [("Words", "Words", "list:word: ", {}), ("Commas", "Comma-List", "list:item:,", {}),
                     ("Lines", "Line-List", "list:item:\n", {}), ("Pipes", "Pipes", "list:item:|", {}),
-                    ("Nums", "Nums", "list:int:,", {}), ("Archs", "Architecture", "list:arch: ", {})],
+                    ("Nums", "Nums", "list:int:,", {}), ("Archs", "Architecture", "list:arch: ", {}),
+                    ("MustList", "Must-List", "list:item:,", {"required": True}), ("MustNums", "Must-Nums", "list:int:,", {"required": True})],
     "probe_custom": [("Version", "Version", "version", {}), ("Depends", "Depends", "dep", {}), ("Arch", "Architecture", "arch", {}),
                      ("Hashes", "Checksums-Sha256", "list:hash:\n", {"multiline": True}), ("Source", "Source", "str", {"required": True})],
     "probe_plain": [("Package", "Package", "str", {"required": True}), ("Version", "Version", "version", {}),
@@ -173,7 +174,7 @@ def run(chk):
                     why = "required field %s was not written" % key
                 if not flags.get("required") and kind in ("str", "text", "version", "dep") and empty and k in keys_written:
                     why = "optional empty field %s was written" % key
-                if kind.startswith("list:") and canon == "[]" and k in keys_written:
+                if not flags.get("required") and kind.startswith("list:") and canon == "[]" and k in keys_written:
                     why = "optional empty list %s was written" % key
             known = {key.encode() for _, key, _, _, _, _ in vals}
             unk_in = [k for k, _ in found if k not in known]
@@ -186,6 +187,15 @@ def run(chk):
                         why = "unknown field %r was not re-emitted unchanged" % k
         if why:
             chk.violate({"kind": "property", "case": lib.show_case(c), "impl": i[:1500], "explanation": why})
+    # nil in the place of a value (a nil *T, the untyped nil, a slice holding a nil *T) through Marshal, Encoder.Encode and
+    # ConvertToParagraph: an error each time, never a panic, and nothing written
+    nc = [("cmarshalnil", [t.encode()]) for t in PROBES]
+    ni = chk.run_impl(nc)
+    chk.record("marshalling-nil", nc, ni, lambda c, r: True)
+    for c, r in zip(nc, ni):
+        if r != "err err err err err err written=0":
+            chk.violate({"kind": "property", "case": lib.show_case(c), "impl": r,
+                         "explanation": "marshalling nil (Marshal / Encode / ConvertToParagraph of a nil pointer, of nil, of a slice holding a nil pointer) panicked or did not fail"})
     # LONG values: a single line of 4095 ... 131072 bytes in a string field, in a multi-line field (between short lines), in a
     # joined list and in an unknown field of the embedded paragraph round-trips like any other (implementation only: the
     # extracted model's list reversal is quadratic)
